@@ -72,6 +72,9 @@ func runC17(c *Ctx, r *Report) {
 	r.Rule("C17/loopvar-escapes", "no range variable of the platform package is referred to after its iteration (on-open and on-close hooks built in a loop would all run the last row's steps)", 1)
 	checkLoopVarEscapes(c, r, "C17/loopvar-escapes", nil)
 	importFoundation(c, r, "C17", "interactive")
+	importFoundation(c, r, "C17", "ansi")
+	r.Rule("C17/embedded-first", "an advertised name is looked up among the embedded definitions first and as it was given (nothing on the machine's file system can shadow it)", 1)
+	checkAssetLookupUnresolved(c, r, "C17/embedded-first")
 	r.Rule("C17/always-fetches-prompt", "AcquirePriv reports success only after it fetched the device's prompt (every level stays reachable whatever the device did in between)", 1)
 	checkAcquireAlwaysFetchesPrompt(c, r, "C17/always-fetches-prompt")
 	r.Rule("C17/search-window", "prompt searches look at a suffix of the buffer that starts on a line boundary and keeps every line of a multi-line prompt pattern", 4)
